@@ -332,6 +332,10 @@ def obligations(chk):
     for mod, cls, fac in DELAYED:
         delayed_clauses(chk, mod, cls, fac)
     slots_scan_obligation(chk, I)
+    # "irrespective of name coincidences ... or one type reachable through several paths": the reference that stands for a
+    # revisited member type is pinned to that type on an object of its own (props/c11.py; shared with C07 and C11)
+    from props import c11
+    c11.forwardref_obligations(chk)
 
 
 # ----------------------------------------------------------------------------- Delayed proxies
